@@ -4,6 +4,8 @@ import random
 import time
 
 from pyvc.report import Check, run_check, seed
+from pyvc.smt import budget_ms
+from checks.wp_common import run_wp
 
 LITS = [1, 2, 3, -1, -2]
 NV = 4
@@ -269,6 +271,8 @@ def main(tier):
     # rep <-> op(children), the representative is the old next_variable and next_variable advances by one;  N2 on a hit nothing
     # is appended and the cached representative is returned;  N3 two nodes that share a cache key have the same meaning (otherwise
     # a hit would reuse a representative that was defined for a different function of the operands).
+    # _Cache.get, proved for all inputs (pyvc.wp): representatives are taken from next_variable upward, one per key, never reused for another key
+    run_wp(ck, ["cache_get"], budget_ms(tier), prefix="C11.wp.")
     node_contracts(ck, Lg, tier)
     # sibling family: two binary nodes over the same literals under one And/Or (cache interaction between siblings)
     fam = 0
